@@ -80,6 +80,13 @@ class Verdict(object):
         for f in fs:
             self.failure(f)
 
+    def vacuous(self, why):
+        """A run that exercised nothing of what it is meant to exercise is a failure of the machinery (exit 2) -- unless it
+        already found violations: a change that makes every case fail early must be REPORTED, not masked by the guard."""
+        if not self.violations:
+            raise common.MachineryError(why)
+        self.notes.append('vacuity guard skipped because violations were found: ' + why)
+
     # ---- finishing ------------------------------------------------------------------------
     def finish(self, level, coverage, assumptions=(), max_replays=5):
         """Writes evidence and replay files, prints the protocol lines, returns the exit code."""
